@@ -1552,6 +1552,19 @@ struct Case {
                                 heldSet = true;
                                 cn->send("<iq type='result' id='" + o["id"].toString().toUtf8() + "' from='" + jids[1 - k].toUtf8() + "'/>");
                                 continue;
+                            } else if (kind == u"inject") {
+                                // an additional block from someone else (another resource of the sender's account, the bare account, a stranger) with the
+                                // right session id and the expected sequence number, carrying other bytes; the sender's own block follows
+                                QDomDocument d;
+                                d.setContent(out, true);
+                                auto dataEl = d.documentElement().firstChildElement();
+                                QByteArray payload = QByteArray::fromBase64(dataEl.text().toLatin1());
+                                for (auto &ch : payload) ch = char(ch ^ 0x5a);
+                                while (!dataEl.firstChild().isNull()) dataEl.removeChild(dataEl.firstChild());
+                                dataEl.appendChild(d.createTextNode(QString::fromLatin1(payload.toBase64())));
+                                d.documentElement().setAttribute(u"from"_s, tamper["injectFrom"].toString());
+                                d.documentElement().setAttribute(u"id"_s, u"inj-"_s + o["id"].toString());
+                                other->send(d.toByteArray(-1));
                             } else if (kind == u"wrongsid") {
                                 out.replace("sid=\"", "sid=\"x");
                             } else if (kind == u"wrongsender") {
